@@ -44,6 +44,16 @@ inductive Op
   | resumed (h : Nat) (up : Bool)
   /-- `resetCache()` (destructor, `connectToServer` with another account) -/
   | resetCache
+  /-- `<a h=…/>` received while the client's delivery-report continuations are *re-entrant*: the
+  continuation of the "acknowledged" report of every packet whose id is in `re` sends one new stanza
+  at once (from inside `reportFinished`); `up` = those writes succeed.  `ack h` is the case `re = []`.
+  Packets sent from inside a report have no sending continuation themselves (depth one). -/
+  | ackRe (h : Nat) (re : List Nat) (up : Bool)
+  /-- `<resumed h=…/>` with re-entrant continuations, see `ackRe` -/
+  | resumedRe (h : Nat) (re : List Nat) (up : Bool)
+  /-- `<failed [h=…]/>` received in answer to `<resume/>` → `C2sStreamManager::onResumeFailed`;
+  `h` = the server's handled count, if it sent one (XEP-0198 section 5) -/
+  | resumeFailed (h : Option Nat)
   deriving DecidableEq, Repr
 
 /-- what a packet's task is finished with -/
@@ -104,17 +114,38 @@ def resendOut (up : Bool) (l : List (Nat × Nat)) : List Out := l.flatMap fun e 
 
 def ackReports (l : List (Nat × Nat)) : List Out := l.map fun e => .report e.2 .acked
 
+/-- `internalSend`: write first, then either store (+ `<r/>`) or report immediately -/
+def sendStep (s : St) (stanza up : Bool) : St × List Out :=
+  let id := s.nextId
+  if s.enabled && stanza then
+    ({ s with nextId := id + 1, lastOut := s.lastOut + 1,
+              unacked := s.unacked ++ [(s.lastOut + 1, id)] },
+     emit up (.pkt id) ++ emit up .r ++ [.written up])
+  else
+    ({ s with nextId := id + 1 },
+     emit up (.pkt id) ++ [.report id (if up then .sent else .writeError), .written up])
+
+/-- the loop body of `setAcknowledgedSequenceNumber` for the entries `l` it reports, in order:
+`reportFinished(acknowledged)` runs the packet's continuation, which (if the packet is in `re`) calls
+`send` for a new stanza right there — in whatever state the manager is at that moment — and only then
+is the entry erased -/
+def fireAcked (re : List Nat) (up : Bool) : St → List (Nat × Nat) → St × List Out
+  | s, [] => (s, [])
+  | s, e :: t =>
+    let r1 := if re.contains e.2 then sendStep s true up else (s, [])
+    let r2 := fireAcked re up r1.1 t
+    (r2.1, .report e.2 .acked :: (r1.2 ++ r2.2))
+
+/-- `setAcknowledgedSequenceNumber h` with re-entrant continuations: the entries with key `≤ h` are
+reported one by one; the loop then goes on over whatever the continuations inserted behind them (it
+stops at the first key `> h`, so this matters only when nothing older is left and `h` is beyond the
+last number used) -/
+def ackPhase (s : St) (h : Nat) (re : List Nat) (up : Bool) : St × List Out :=
+  let r1 := fireAcked re up { s with unacked := keptPart h s.unacked } (ackedPart h s.unacked)
+  ({ r1.1 with unacked := keptPart h r1.1.unacked }, r1.2 ++ ackReports (ackedPart h r1.1.unacked))
+
 def step (s : St) : Op → St × List Out
-  | .send stanza up =>
-    -- internalSend: write first, then either store (+ <r/>) or report immediately
-    let id := s.nextId
-    if s.enabled && stanza then
-      ({ s with nextId := id + 1, lastOut := s.lastOut + 1,
-                unacked := s.unacked ++ [(s.lastOut + 1, id)] },
-       emit up (.pkt id) ++ emit up .r ++ [.written up])
-    else
-      ({ s with nextId := id + 1 },
-       emit up (.pkt id) ++ [.report id (if up then .sent else .writeError), .written up])
+  | .send stanza up => sendStep s stanza up
   | .ack h =>
     if s.enabled then
       ({ s with unacked := keptPart h s.unacked }, ackReports (ackedPart h s.unacked))
@@ -137,6 +168,16 @@ def step (s : St) : Op → St × List Out
        (if kept.isEmpty then [] else resendOut up kept ++ reqOut true up))
   | .resetCache =>
     ({ s with unacked := [] }, s.unacked.map fun e => .report e.2 .disconnected)
+  | .ackRe h re up =>
+    if s.enabled then ackPhase s h re up else (s, [])
+  | .resumedRe h re up =>
+    -- onResumed: the reports fire *before* stream management is switched on again and before the resend
+    let r1 := ackPhase s h re up
+    ({ r1.1 with enabled := true },
+     r1.2 ++ (if r1.1.unacked.isEmpty then [] else resendOut up r1.1.unacked ++ reqOut true up))
+  | .resumeFailed _ =>
+    -- onResumeFailed only logs: the handled count of `<failed h/>` is not read
+    (s, [])
 
 def run (s : St) : List Op → St × List Out
   | [] => (s, [])
@@ -160,6 +201,20 @@ empty, otherwise the packets of `l` in list order followed by one `<r/>` -/
 def resendBlock (l : List (Nat × Nat)) : List Wire :=
   if l.isEmpty then [] else (l.map fun e => Wire.pkt e.2) ++ [Wire.r]
 
+/-- the handled count carried by the operation, for the operations that acknowledge -/
+def Op.ackH : Op → Option Nat
+  | .ack h => some h
+  | .ackRe h _ _ => some h
+  | .resumed h _ => some h
+  | .resumedRe h _ _ => some h
+  | _ => none
+
+/-- `<a/>` (as opposed to `<resumed/>`): only honoured while stream management is on -/
+def Op.isA : Op → Bool
+  | .ack _ => true
+  | .ackRe _ _ _ => true
+  | _ => false
+
 /-! ### specification-side counting (independent of `step`) -/
 
 /-- "received on that session": (stream management currently on?, number of message/presence/iq
@@ -169,6 +224,7 @@ management is off (connection down, or an intermediate session without it) do no
 def sessionCountStep (c : Bool × Nat) : Op → Bool × Nat
   | .enabledNew _ => (true, 0)
   | .resumed _ _ => (true, c.2)
+  | .resumedRe _ _ _ => (true, c.2)
   | .sessionClosed => (false, c.2)
   | .recv k => if c.1 && k.isStanza then (c.1, c.2 + 1) else c
   | _ => c
